@@ -125,7 +125,9 @@ pub fn sheet_names(rng: &mut Rng, n: usize) -> Vec<String> {
 /// new workbook with the given sheet names (the default sheet is renamed to the first)
 pub fn new_book(names: &[String]) -> Spreadsheet {
     let mut book = new_file();
-    book.set_sheet_name(0, names[0].clone()).unwrap();
+    if book.get_sheet(&0).unwrap().get_name() != names[0] {
+        book.set_sheet_name(0, names[0].clone()).unwrap();
+    }
     for n in names.iter().skip(1) {
         book.new_sheet(n.clone()).unwrap();
     }
